@@ -257,11 +257,13 @@ Fixpoint guarded_txs (e : env) (h : N) (ts : list tx) (s : st) : Prop :=
   | t :: r => guard e t s /\ guarded_txs e h r (fst (run_tx e h t s))
   end.
 
-Fixpoint guarded_chain (e : env) (bs : list (N * list tx)) (s : st) : Prop :=
+Fixpoint guarded_chain (e : env) (bs : list block) (s : st) : Prop :=
   match bs with
   | [] => True
-  | (h, ts) :: r => guarded_txs e h ts s /\ guarded_chain e r (fst (run_block e h ts s))
+  | (h, ts, rw) :: r => guarded_txs e h ts s /\ guarded_chain e r (fst (run_block e h ts rw s))
   end.
+
+Definition block_txs (b : block) : list tx := snd (fst b).
 
 Definition block_closed (I : list N) (ts : list tx) : Prop := Forall (tx_closed_ids I) ts.
 
@@ -285,33 +287,33 @@ Proof.
   - apply run_tx_unique; assumption.
 Qed.
 
-Lemma end_block_cur : forall h s, cur (end_block h s) = cur s.
-Proof. intros. unfold end_block. destruct (credit_due h (pend s ++ esc s) (bal s)). reflexivity. Qed.
+Lemma end_block_cur : forall h rw s, cur (end_block h rw s) = cur s.
+Proof. intros. unfold end_block. destruct (credit_due h (pend s ++ rw ++ esc s) (bal s)). reflexivity. Qed.
 
-Lemma end_block_boundary : forall h s, boundary (end_block h s).
-Proof. intros h s k i. unfold end_block. destruct (credit_due h (pend s ++ esc s) (bal s)). reflexivity. Qed.
+Lemma end_block_boundary : forall h rw s, boundary (end_block h rw s).
+Proof. intros h rw s k i. unfold end_block. destruct (credit_due h (pend s ++ rw ++ esc s) (bal s)). reflexivity. Qed.
 
-Lemma run_block_fst : forall e h ts s, fst (run_block e h ts s) = end_block h (fst (run_txs e h ts s)).
+Lemma run_block_fst : forall e h ts rw s, fst (run_block e h ts rw s) = end_block h rw (fst (run_txs e h ts s)).
 Proof. intros. unfold run_block. destruct (run_txs e h ts s). reflexivity. Qed.
 
-Theorem run_block_unique : forall e h ts s, reg_wf (ids e) s -> block_closed (ids e) ts -> guarded_txs e h ts s ->
+Theorem run_block_unique : forall e h ts rw s, reg_wf (ids e) s -> block_closed (ids e) ts -> guarded_txs e h ts s ->
   acct_unique s ->
-  let s' := fst (run_block e h ts s) in reg_wf (ids e) s' /\ acct_unique s' /\ boundary s'.
+  let s' := fst (run_block e h ts rw s) in reg_wf (ids e) s' /\ acct_unique s' /\ boundary s'.
 Proof.
-  intros e h ts s Hwf Hcl Hg Hu. cbv zeta. rewrite run_block_fst.
+  intros e h ts rw s Hwf Hcl Hg Hu. cbv zeta. rewrite run_block_fst.
   destruct (run_txs_unique e h ts s Hwf Hcl Hg Hu) as [Hwf' Hu'].
   split; [|split; [|apply end_block_boundary]].
   - unfold reg_wf, registered in *. rewrite end_block_cur. exact Hwf'.
   - unfold acct_unique, registered in *. rewrite end_block_cur. exact Hu'.
 Qed.
 
-Theorem run_chain_unique : forall e bs s, reg_wf (ids e) s -> Forall (fun b => block_closed (ids e) (snd b)) bs ->
+Theorem run_chain_unique : forall e bs s, reg_wf (ids e) s -> Forall (fun b => block_closed (ids e) (block_txs b)) bs ->
   guarded_chain e bs s -> acct_unique s ->
   reg_wf (ids e) (run_chain e bs s) /\ acct_unique (run_chain e bs s).
 Proof.
-  intros e bs. induction bs as [|[h ts] r IH]; intros s Hwf Hcl Hg Hu; [cbn; auto|].
-  inversion Hcl as [|? ? Hb Hr]; subst. destruct Hg as [Hg Hgr]. cbn [run_chain snd] in *.
-  destruct (run_block_unique e h ts s Hwf Hb Hg Hu) as (Hwf' & Hu' & _). apply IH; assumption.
+  intros e bs. induction bs as [|[[h ts] rw] r IH]; intros s Hwf Hcl Hg Hu; [cbn; auto|].
+  inversion Hcl as [|? ? Hb Hr]; subst. destruct Hg as [Hg Hgr]. cbn [run_chain block_txs fst snd] in *.
+  destruct (run_block_unique e h ts rw s Hwf Hb Hg Hu) as (Hwf' & Hu' & _). apply IH; assumption.
 Qed.
 
 (* a transaction that starts at a block boundary and is not an operator-node call is always guarded:
@@ -353,7 +355,7 @@ Proof. intros b k i k' i' H. unfold registered in H. cbn in H. congruence. Qed.
 
 Theorem account_unique_refuted :
   exists e h ts s, boundary s /\ reg_wf (ids e) s /\ acct_unique s /\ block_closed (ids e) ts /\
-    snd (run_block e h ts s) = [ROk; ROk] /\ ~ acct_unique (fst (run_block e h ts s)).
+    snd (run_block e h ts [] s) = [ROk; ROk] /\ ~ acct_unique (fst (run_block e h ts [] s)).
 Proof.
   exists env2, 100%N, two_applies, (empty_state rich).
   split; [apply empty_boundary|]. split; [apply empty_reg_wf|]. split; [apply empty_unique|].
@@ -365,14 +367,14 @@ Proof.
 Qed.
 
 (* the same through the operator-node path: the reported address already carries a miner *)
-Definition squat : list (N * list tx) :=
-  [(100%N, [TApply 2 true 0 1 400 0 true]);       (* S registers miner 1 under its own account 2 *)
-   (101%N, [TApply 2 true 0 2 400 9 true]);       (* somebody registers miner 2 under address 9 *)
-   (102%N, [TOpNode 2 (Some 9%N)])].              (* S becomes operator node: the contract reports address 9 *)
+Definition squat : list block :=
+  [(100%N, [TApply 2 true 0 1 400 0 true], []);       (* S registers miner 1 under its own account 2 *)
+   (101%N, [TApply 2 true 0 2 400 9 true], []);       (* somebody registers miner 2 under address 9 *)
+   (102%N, [TOpNode 2 (Some 9%N)], [])].              (* S becomes operator node: the contract reports address 9 *)
 
 Theorem account_unique_refuted_opnode :
   exists e bs s, boundary s /\ reg_wf (ids e) s /\ acct_unique s /\
-    Forall (fun b => length (snd b) = 1%nat) bs /\ ~ acct_unique (run_chain e bs s).
+    Forall (fun b => length (block_txs b) = 1%nat) bs /\ ~ acct_unique (run_chain e bs s).
 Proof.
   exists env2, squat, (empty_state rich).
   split; [apply empty_boundary|]. split; [apply empty_reg_wf|]. split; [apply empty_unique|].
